@@ -80,3 +80,16 @@ Definition row_tmpl_wf (t : tmpl) (fws : list (Z * Z)) : bool :=
 (* sum of the slices of a value *)
 Definition sterm (s : Z * Z) (v : Z) : Z := ((v / 2 ^ snd s) mod 2 ^ (fst s - snd s + 1)) * 2 ^ snd s.
 Fixpoint ssum (l : list (Z * Z)) (v : Z) : Z := match l with [] => 0 | s :: r => sterm s v + ssum r v end.
+
+(* fixed bits of a template as a word (all fields zero) and the mask of its fixed-bit positions; used to compare the opcode constants of
+   the assembler's EncodingData tables with the database templates *)
+Definition tfixed (t : tmpl) : Z := tenc t [].
+Fixpoint tmask (t : tmpl) : Z :=
+  match t with
+  | [] => 0
+  | TFixed w _ :: r => (2 ^ w - 1) * 2 ^ (twidth r) + tmask r
+  | TField _ _ _ :: r => tmask r
+  end.
+(* word w agrees with the fixed bits of t outside the positions var (bits the encoding class ORs in itself: sf, Q, size, ...) *)
+Definition tword_agrees (t : tmpl) (w var : Z) : bool :=
+  Z.land (Z.lxor w (tfixed t)) (Z.land (tmask t) (4294967295 - var)) =? 0.
